@@ -233,11 +233,18 @@ class Verifier:
 
     # ---- Equiv ---------------------------------------------------------------------------------------------------------------
     def verify_equiv(self, c):
-        label = c.label
-        try:
-            self._verify_equiv(c, label)
-        except Unsupported as e:
-            self.undecided.append((label, 'outside the verified subset: %s' % e))
+        cases = c.kw.get('cases')
+        if not cases:
+            cases = [(None, [])]
+        base_req = list(c.requires)
+        for cname, creq in cases:
+            label = c.label if cname is None else '%s[%s]' % (c.label, cname)
+            c.requires = base_req + list(creq)
+            try:
+                self._verify_equiv(c, label)
+            except Unsupported as e:
+                self.undecided.append((label, 'outside the verified subset: %s' % e))
+        c.requires = base_req
 
     def _run_side(self, c, which, fname, argtags, loops, positional):
         node, module, cls, disp, real = self.resolve(fname)
@@ -280,10 +287,12 @@ class Verifier:
             self.add(ob['name'], c.func, ob['clause'], ob['pc'], ob['goal'], 'invariant')
         # loop-body equivalence for every summarised loop
         for lname in sorted(set(jobs_i) | set(jobs_r)):
+            if c.kw.get('skip_loop_bodies'):
+                break      # the generic loop-body obligations do not depend on the case; they are generated with the first case
             if lname not in jobs_i or lname not in jobs_r:
                 self.undecided.append(('%s::%s' % (label, lname), 'loop reached on one side only'))
                 continue
-            self._loop_body_equiv(label, c, lname, exi, jobs_i[lname], exr, jobs_r[lname])
+            self._loop_body_equiv(c.label, c, lname, exi, jobs_i[lname], exr, jobs_r[lname])
 
     def _final_terms(self, ex, o, observe, at_keys):
         """publish what escapes through the outcome and collect the observable components"""
